@@ -222,7 +222,8 @@ def Res.bind {α β : Type} : Res α → (α → Res β) → Res β
 
 /-- `limitFollowSymlinks` -/
 def limitFollowSymlinks : Nat := 10
-/-- the `maxSymlinks` that `walkMountsBelow` passes on -/
+/-- `walkMountsBelow` passes on the caller's `maxSymlinks`, capped at this value
+(`if maxSymlinks > 0 { maxSymlinks = 0 }`, fix f009595; before it, the literal `0` itself) -/
 def belowMaxSymlinks : Nat := 0
 
 /-- insertion sort by `<` on strings (`sort.Strings`: bytewise order, which is code point order) -/
@@ -234,8 +235,8 @@ def sortNames (l : List Name) : List Name := l.foldr insertName []
 inductive Call where
   /-- `walkMount(dest, src, n-1, below)` -/
   | mount (dest src : Path) (n : Nat) (below : Bool)
-  /-- the remaining iterations of the loop in `walkMountsBelow(dest, src)` -/
-  | below (dest src : Path) (ms : List (Path × Mount))
+  /-- the remaining iterations of the loop in `walkMountsBelow(dest, src, n-1)` -/
+  | below (dest src : Path) (n : Nat) (ms : List (Path × Mount))
   /-- `walkHostFS(dest, src, n-1, inc)` -/
   | host (dest src : Path) (n : Nat) (inc : Bool)
   /-- the remaining iterations of the loop over the entries of directory `src` -/
@@ -250,7 +251,7 @@ def walk (h : Host) (cfg : Cfg) : Nat → Call → Plan → Res Plan
     | none => .err .notMounted
     | some (root, m) =>
       let cont (st : Plan) : Res Plan :=
-        if below then walk h cfg fuel (.below dest src cfg.mounts) st else .ok st
+        if below then walk h cfg fuel (.below dest src n cfg.mounts) st else .ok st
       if m.exclude then cont st
       else if m.kind = "tmp" then
         if root = cfg.ctrOut then walk h cfg fuel (.host dest src n below) st else .unmodelled
@@ -260,14 +261,14 @@ def walk (h : Host) (cfg : Cfg) : Nat → Call → Plan → Res Plan
         | none => .err .manifest
         | some c => cont (st.addFrags (extract c (cleanRel (m.path ++ src.drop root.length)) dest))
       else .unmodelled
-  | _ + 1, .below _ _ [], st => .ok st
-  | fuel + 1, .below dest src ((mnt, m) :: ms), st =>
+  | _ + 1, .below _ _ _ [], st => .ok st
+  | fuel + 1, .below dest src n ((mnt, m) :: ms), st =>
     if src.isPrefixOf mnt ∧ src.length < mnt.length ∧ ¬ copyRegular m then
-      (walk h cfg fuel (.mount (dest ++ mnt.drop src.length) mnt (belowMaxSymlinks + 1) false) st).bind fun st' =>
-        walk h cfg fuel (.below dest src ms) st'
-    else walk h cfg fuel (.below dest src ms) st
+      (walk h cfg fuel (.mount (dest ++ mnt.drop src.length) mnt (min n (belowMaxSymlinks + 1)) false) st).bind
+        fun st' => walk h cfg fuel (.below dest src n ms) st'
+    else walk h cfg fuel (.below dest src n ms) st
   | fuel + 1, .host dest src n inc, st =>
-    (if inc then walk h cfg fuel (.below dest src cfg.mounts) st else .ok st).bind fun st =>
+    (if inc then walk h cfg fuel (.below dest src n cfg.mounts) st else .ok st).bind fun st =>
     match namei h [] (cfg.hostOut ++ src.drop cfg.ctrOut.length) 0 with
     | .found _ (.link abs t) =>
       if n = 0 then .err .symlinks
@@ -296,10 +297,11 @@ def scan (h : Host) (cfg : Cfg) (fuel : Nat) : Res Plan :=
 /-- the longest path of the host tree -/
 def depthBound (h : Host) : Nat := (h.map (·.1.length)).foldr max 0
 def cS (h : Host) : Nat := h.length + 2
-def cL (h : Host) : Nat := (depthBound h + 1) * cS h + 2
 def cB (cfg : Cfg) : Nat := cfg.mounts.length + 2
-def big (h : Host) (cfg : Cfg) (n : Nat) : Nat := n * cL h + (depthBound h + 1) * cS h + cB cfg + 1
-/-- fuel that suffices for the whole scan of a supported configuration -/
+def cL (h : Host) (cfg : Cfg) : Nat := (depthBound h + 1) * cS h + cB cfg + 2
+def big (h : Host) (cfg : Cfg) (n : Nat) : Nat :=
+  n * cL h cfg + (depthBound h + 1) * cS h + cB cfg + cB cfg + 2
+/-- fuel that suffices for the whole scan of a runnable configuration -/
 def fuelBound (h : Host) (cfg : Cfg) : Nat := big h cfg (limitFollowSymlinks + 1)
 
 /-! ## the rest of `Copy`: the plan applied to a collection filesystem -/
@@ -398,9 +400,9 @@ def runnable (cfg : Cfg) : Bool :=
   cfg.mounts.all fun e =>
     (e.2.kind ≠ "tmp" || e.1 = cfg.ctrOut) && !(e.2.kind = "collection" && e.2.writable)
 
-/-- configurations for which termination is proved: `runnable`, and no mount above the output path
-(with one, `walkMountsBelow` re-enters the output directory with a fresh budget: finding F17c); its complement is: a `tmp` mount
-other than the output directory, a writable collection mount, a mount above the output path -/
+/-- `runnable`, and no mount above the output path: the configurations for which the equality
+theorems are proved (with a mount above, `walkMountsBelow` re-enters the output directory; since
+fix f009595 with the caller's budget, so termination holds for every `runnable` configuration) -/
 def supported (cfg : Cfg) : Bool :=
   cfg.mounts.all fun e =>
     (e.2.kind ≠ "tmp" || e.1 = cfg.ctrOut) &&
